@@ -202,7 +202,7 @@ def build_driver(name, flavour):
 
 if __name__ == "__main__":
     t0 = time.time()
-    if len(sys.argv) >= 3:
+    if len(sys.argv) == 3 and sys.argv[1] not in FLAVOURS:
         print(build_driver(sys.argv[1], sys.argv[2]))
     else:
         for f in (sys.argv[1:] or ["asan"]):
